@@ -52,6 +52,8 @@ class Shadow:
         self.uses = {}        # k -> list of [begin, end or None]  (for C09)
         self.use_of = {}      # h -> (k, index)
         self.step = 0
+        self.busy_end = {}    # k -> step at which k last became free (not held, not awaited)
+        self.was_busy = set()
 
     # ---- derived
     def held(self, k):
@@ -141,6 +143,11 @@ def check_case(kind, pairs):
         except Fail as e:
             fail(['C05'], i, f'oracle cannot follow the trace: {e}')
             break
+        # busy periods per key (for C09): a key is busy while it is held by any guard or awaited
+        busy_now = set(k for k in sh.present() if not sh.free(k))
+        for k in sh.was_busy - busy_now:
+            sh.busy_end[k] = i
+        sh.was_busy = busy_now
         # ---- after every step: accounting (C04), values (C02), lock flags (C01), stamps (C10)
         ps = parse_snap(snap)
         if ps is None:
@@ -457,29 +464,21 @@ def check_one(sh, kind, toks, res, i, fail):
 
 def check_lru_order(sh, cands, eligible, i, fail):
     """C09: if every use of A ended before the last use of B began, A is offered no later than B;
-    an unlocked entry is never passed over for one used strictly later."""
+    an unlocked entry is never passed over for one used strictly later.
+    'use of B began' = the lookup of a lock call for B (the only thing that refreshes B's recency at its begin);
+    'every use of A ended' = A became free (no guard of any origin, no pending acquisition) for the last time."""
     def last_begin(k):
         u = sh.uses.get(k)
         return u[-1][0] if u else -1
-
-    def max_end(k):
-        u = sh.uses.get(k)
-        if not u:
-            return -1
-        if any(e is None for (_, e) in u):
-            return None
-        return max(e for (_, e) in u)
 
     for b in cands:
         for a in eligible:
             if a == b:
                 continue
-            ea = max_end(a)
-            if ea is None:
-                continue
+            ea = sh.busy_end.get(a, -1)
             if ea < last_begin(b):
                 if a not in cands:
-                    fail(['C09'], i, f'key {a} (all uses ended at step {ea}) passed over for {b} (last use began at {last_begin(b)})')
+                    fail(['C09'], i, f'key {a} (free since step {ea}) passed over for {b} (last use began at {last_begin(b)})')
                 elif cands.index(a) > cands.index(b):
                     fail(['C09'], i, f'key {b} offered before older key {a}')
 
